@@ -18,7 +18,8 @@ RULE = ("a case is a program: 1-3 threads, each a nesting (depth <= 4) of parall
         "exception, stepped in lock-step; after every step every thread observes get_active_backend() and Parallel(**explicit) "
         "for several explicit-argument subsets; depth <= 2 x single-key settings are enumerated exhaustively, the rest sampled; "
         "distinct_nontrivial counts distinct (stack of settings, explicit arguments) observations with a non-empty stack "
-        "or non-empty explicit arguments")
+        "or non-empty explicit arguments"
+        " Backend domain includes custom backends declaring uses_threads only / no flag; an effects layer makes 4-10 real loky / multiprocessing calls per sequence under changing temp_folder / max_nbytes / mmap_mode scopes and checks where and how the task's argument is mapped.")
 ASSUMPTIONS = [
     "reference resolution: explicit > innermost context that set the key > ... > default, per key",
     "carve-out asserted by the repository's own suite: when a context's explicitly chosen backend is replaced by the "
